@@ -115,6 +115,7 @@ def calculate_node(N):
                   "self.nexpExtended == %d" % (2 ** N)],
         modifies=["elems(u)", "elems(v)"],
         ensures=["node_spec(%d, iis, result, u, v)" % N],
+        cases=["iis == %d" % k for k in range(2 ** N)],
         doc="strongest post-condition: (l, u, v) is the node-table row of the digit",
     )
 
@@ -287,6 +288,7 @@ def get_image_1():
                     requires=["0 <= x", "x <= 1", "self.numberOfFloatVariables == 1", "vlen(self.yValues) == 1"] + BOX_REQ(1),
                     modifies=["elems(self.yValues)"],
                     ensures=["fresh(result) and vlen(result) == 1",
+                             "result is not self.yValues and self.yValues is old(self.yValues)",
                              "result[0] == self.lowerBoundOfFloatVariables[0] + x * (self.upperBoundOfFloatVariables[0]"
                              " - self.lowerBoundOfFloatVariables[0])",
                              "self.lowerBoundOfFloatVariables[0] <= result[0] and result[0] <= self.upperBoundOfFloatVariables[0]",
@@ -319,3 +321,110 @@ def evolvent_init(N):
                              "self.upperBoundOfFloatVariables[%d] == upperBoundOfFloatVariables[%d]" % (i, i, i, i)
                              for i in range(N)],
                     doc="constructor: D = 2^N, owned copies of the bounds, configured density stored")
+
+
+# ----------------------------------------------------------------------------- inverse direction (C09)
+def calculate_numbr(N):
+    """(s, l, v) is the node-table row whose u-vector is the argument: the exact inverse of __CalculateNode."""
+    import itertools
+    cases = [" and ".join("u[%d] == %d" % (i, s) for i, s in enumerate(sig)) for sig in itertools.product((1, -1), repeat=N)]
+    return Contract(
+        FILE, "Evolvent.__CalculateNumbr",
+        params={"u": "vec:int", "v": "vec:int"}, result="tuple(real,int,vec:int)",
+        setup=setup_N(N),
+        requires=["forall(0, %d, lambda i: u[i] == 1 or u[i] == -1)" % N, "u is not v",
+                  "vlen(u) == %d" % N, "vlen(v) == %d" % N, "self.numberOfFloatVariables == %d" % N,
+                  "self.nexpExtended == %d" % (2 ** N)],
+        modifies=["elems(v)"],
+        ensures=["result[2] is v", "node_spec(%d, result[0], result[1], u, v)" % N,
+                 "isint(result[0]) and 0 <= result[0] and result[0] <= %d" % (2 ** N - 1)],
+        cases=cases, allocates=False,
+        doc="inverse node rule: digit, next axis and orientation from the Gray sign vector")
+
+
+def getxony_loop(N):
+    D = 2 ** N
+    before = ["gP = 1.0", "gW = 1.0", "gidx = 0"]
+    end = ["gP = 2 * gP", "gW = %d * gW" % D, "gidx = %d * gidx + floor(iis)" % D]
+    inv = [
+        "0 <= it and it < %d" % N,
+        "forall(0, %d, lambda i: w[i] == 1 or w[i] == -1)" % N,
+        "vlen(u) == %d and vlen(v) == %d and vlen(w) == %d and vlen(self.yValues) == %d" % (N, N, N, N),
+        "gP >= 1 and r * gP == 0.5 and gP == ipow(2, j)",
+        "gW >= 1 and gW == ipow(%d, j) and r1 * gW == 1" % D,
+        "0 <= gidx and gidx <= gW - 1 and x * gW == gidx",
+        "0 <= j and j <= self.evolventDensity",
+        "self.yValues is not u and self.yValues is not v and self.yValues is not w and u is not v and u is not w "
+        "and v is not w and fresh(u) and fresh(v) and fresh(w)",
+        "self.numberOfFloatVariables == %d and self.nexpExtended == %d" % (N, D),
+        "forall(0, %d, lambda i: -r <= self.yValues[i] and self.yValues[i] <= r)" % N,
+        "self.yValues is old(self.yValues)",
+    ]
+    return LoopSpec(invariant=inv, modifies=["elems(self.yValues)", "elems(u)", "elems(v)", "elems(w)"],
+                    variant="self.evolventDensity - j", ghost_before=before, ghost_body_end=end)
+
+
+def getxony(N):
+    D = 2 ** N
+    W = "ipow(%d, self.evolventDensity)" % D
+    return Contract(
+        FILE, "Evolvent.__GetXonY", params={}, result="real",
+        setup=setup_N(N),
+        requires=["self.evolventDensity >= 1", "self.numberOfFloatVariables == %d" % N, "self.nexpExtended == %d" % D,
+                  "vlen(self.yValues) == %d" % N,
+                  "forall(0, %d, lambda i: -0.5 <= self.yValues[i] and self.yValues[i] <= 0.5)" % N],
+        modifies=["elems(self.yValues)"],
+        ensures=["result * %s == gidx" % W, "0 <= gidx and gidx <= %s - 1" % W,
+                 "forall(0, %d, lambda i: -1 <= self.yValues[i] * 2 * ipow(2, self.evolventDensity) and "
+                 "self.yValues[i] * 2 * ipow(2, self.evolventDensity) <= 1)" % N],
+        ghost_results={"gidx": "int"},
+        doc="left end gidx/D^m of a subinterval; the residual left in yValues is at most half a cell per axis")
+
+
+def inverse_api(name, N):
+    """GetInverseImage / GetPreimages (same body, two contracts with the same clauses)."""
+    D = 2 ** N
+    W = "ipow(%d, self.evolventDensity)" % D
+    req = ["self.evolventDensity >= 1", "self.numberOfFloatVariables == %d" % N, "self.nexpExtended == %d" % D,
+           "vlen(y) == %d" % N, "y is not self.lowerBoundOfFloatVariables and y is not self.upperBoundOfFloatVariables"] + BOX_REQ(N) + \
+          ["self.lowerBoundOfFloatVariables[%d] <= y[%d] and y[%d] <= self.upperBoundOfFloatVariables[%d]" % (i, i, i, i)
+           for i in range(N)]
+    ens = ["result * %s == gidx" % W, "0 <= gidx and gidx <= %s - 1" % W, "0 <= result and result < 1",
+           "fresh(self.yValues) and self.yValues is not y"] + \
+          ["old(y[%d]) == y[%d]" % (i, i) for i in range(N)] + \
+          ["old(self.lowerBoundOfFloatVariables[%d]) == self.lowerBoundOfFloatVariables[%d] and "
+           "old(self.upperBoundOfFloatVariables[%d]) == self.upperBoundOfFloatVariables[%d]" % (i, i, i, i) for i in range(N)]
+    return Contract(FILE, "Evolvent." + name, params={"y": "vec:real"}, result="real", setup=setup_N(N),
+                    requires=req, modifies=["self.yValues"], ensures=ens, ghost_results={"gidx": "int"},
+                    doc="x = left end of a subinterval; the argument is not modified")
+
+
+def inverse_api_1(name):
+    return Contract(FILE, "Evolvent." + name, params={"y": "vec:real"}, result="real",
+                    setup=["self.numberOfFloatVariables = 1", "self.nexpExtended = 2.0"],
+                    requires=["self.numberOfFloatVariables == 1", "vlen(y) == 1",
+                              "y is not self.lowerBoundOfFloatVariables and y is not self.upperBoundOfFloatVariables"] + BOX_REQ(1),
+                    modifies=["self.yValues"],
+                    ensures=["result * (self.upperBoundOfFloatVariables[0] - self.lowerBoundOfFloatVariables[0]) == "
+                             "y[0] - self.lowerBoundOfFloatVariables[0]", "old(y[0]) == y[0]",
+                             "fresh(self.yValues) and self.yValues is not y"],
+                    doc="N = 1: exact affine inverse (y - lower)/(upper - lower)")
+
+
+
+def set_bounds(N):
+    return Contract(FILE, "Evolvent.SetBounds",
+                    params={"lowerBoundOfFloatVariables": "vec:real", "upperBoundOfFloatVariables": "vec:real"},
+                    result="none", setup=setup_N(N),
+                    requires=["vlen(lowerBoundOfFloatVariables) == %d" % N, "vlen(upperBoundOfFloatVariables) == %d" % N],
+                    modifies=["self.lowerBoundOfFloatVariables", "self.upperBoundOfFloatVariables"],
+                    ensures=["fresh(self.lowerBoundOfFloatVariables) and fresh(self.upperBoundOfFloatVariables)",
+                             "self.lowerBoundOfFloatVariables is not self.upperBoundOfFloatVariables",
+                             "vlen(self.lowerBoundOfFloatVariables) == %d and vlen(self.upperBoundOfFloatVariables) == %d" % (N, N),
+                             "self.yValues is old(self.yValues)"] +
+                            ["self.lowerBoundOfFloatVariables[%d] == lowerBoundOfFloatVariables[%d] and "
+                             "self.upperBoundOfFloatVariables[%d] == upperBoundOfFloatVariables[%d] and "
+                             "old(lowerBoundOfFloatVariables[%d]) == lowerBoundOfFloatVariables[%d] and "
+                             "old(upperBoundOfFloatVariables[%d]) == upperBoundOfFloatVariables[%d]" % ((i,) * 8)
+                             for i in range(N)],
+                    doc="the configured bounds are owned copies of the arguments; nothing else changes")
